@@ -2,7 +2,7 @@
    work of the close() that won the status flip, and the hub registration is gone once that
    close has passed removeClient.  For ALL schedules. *)
 From Coq Require Import List NArith ZArith Bool Lia.
-From Cfg Require Import Model.SubLifecycle Proofs.SubLifecycleLib Proofs.SubBroker Proofs.SubBrokerStep.
+From Cfg Require Import Model.SubLifecycle Proofs.SubLifecycleLib Proofs.SubBroker Proofs.SubBrokerStep Proofs.SubLocks.
 Import ListNotations.
 Open Scope N_scope.
 
@@ -54,16 +54,16 @@ Qed.
 (* a step of a thread that is not a close thread (or of a close thread that has not won) *)
 Lemma K_other s s' t o' nt x :
   KInv s ->
+  (thr s' = upd (thr s) t o' \/ (thr s' = upd (upd (thr s) nt (Some x)) t o' /\ thr s nt = None)) ->
   (forall k, thr s t = Some (TCls k) -> won (k_pc k) = false) ->
   (forall k, o' = Some (TCls k) -> won (k_pc k) = false) ->
   status s' = status s ->
   (status s = Closed -> forall c g, committed s' c g -> committed s c g) ->
   (status s = Closed -> reg s' = reg s) ->
   (reg s' = true -> authed s' = true) ->
-  (thr s' = upd (thr s) t o' \/ (thr s' = upd (upd (thr s) nt (Some x)) t o' /\ thr s nt = None)) ->
   KInv s'.
 Proof.
-  intros [K1 K2 K3] NW NW' ST CM RG AU TH.
+  intros [K1 K2 K3] TH NW NW' ST CM RG AU.
   assert (KEEP : forall t0 k, thr s t0 = Some (TCls k) -> won (k_pc k) = true \/ k_pc k = CRemove ->
                  thr s' t0 = Some (TCls k)).
   { intros t0 k E W. assert (t0 <> t).
@@ -77,4 +77,356 @@ Proof.
   - rewrite ST. intros CL R. rewrite (RG CL) in R. destruct (K2 CL R) as (t0 & k & E & P).
     exists t0, k. split; auto.
   - exact AU.
+Qed.
+
+(* ---- how the set of committed contexts can change ---- *)
+Lemma cm_same s s' : chans s' = chans s -> forall c g, committed s' c g -> committed s c g.
+Proof. intros E c g (x & L & S & G). rewrite E in L. exists x. auto. Qed.
+
+Lemma cm_remove s s' c0 : chans s' = remove c0 (chans s) -> forall c g, committed s' c g -> committed s c g.
+Proof.
+  intros E c g (x & L & S & G). rewrite E, lookup_remove in L.
+  destruct (N.eqb_spec c c0); [discriminate|]. exists x. auto.
+Qed.
+
+Lemma cm_insert_res s s' c0 x0 :
+  chans s' = insert c0 x0 (chans s) -> c_sub x0 = false -> forall c g, committed s' c g -> committed s c g.
+Proof.
+  intros E S0 c g (x & L & S & G). rewrite E, lookup_insert in L.
+  destruct (N.eqb_spec c c0); [inv L; congruence|]. exists x. auto.
+Qed.
+
+Lemma not_committed_none s c : lookup c (chans s) = None -> forall g, ~ committed s c g.
+Proof. intros E g (x & L & _). congruence. Qed.
+
+(* a step of the close thread that has won the flip *)
+Record KInvW (s : st) : Prop := {
+  kw_inv : KInv s;
+  kw_closed : forall t k, thr s t = Some (TCls k) -> won (k_pc k) = true -> status s = Closed
+}.
+
+Lemma K_winner s s' t k o' :
+  KInv s -> thr s t = Some (TCls k) -> won (k_pc k) = true ->
+  status s' = status s -> authed s' = authed s ->
+  thr s' = upd (thr s) t o' ->
+  (forall c g, committed s' c g -> committed s c g) ->
+  (forall c g, committed s' c g -> covers s k c ->
+     exists k', o' = Some (TCls k') /\ covers s' k' c) ->
+  (if match k_pc k with CRemove => true | _ => false end then reg s' = false else reg s' = reg s) ->
+  KInv s'.
+Proof.
+  intros [K1 K2 K3] ET W ST AU TH CM TR RG. constructor.
+  - rewrite ST. intros CL c g G. destruct (K1 CL c g (CM _ _ G)) as (t0 & k0 & E & CV).
+    destruct (N.eqb_spec t0 t).
+    + subst t0. rewrite ET in E. inv E. destruct (TR _ _ G CV) as (k' & -> & CV').
+      exists t, k'. rewrite TH, upd_same. auto.
+    + exists t0, k0. rewrite TH, upd_other; auto. split; auto. eapply covers_mono; eauto.
+  - rewrite ST. intros CL R. destruct (k_pc k) eqn:EPC; try (rewrite RG in R;
+      destruct (K2 CL R) as (t0 & k0 & E & P); exists t0, k0; rewrite TH;
+      destruct (N.eqb_spec t0 t); [subst t0; rewrite ET in E; inv E; congruence|rewrite upd_other; auto]; fail).
+    rewrite RG in R. discriminate.
+  - intros R. rewrite AU. apply K3. destruct (k_pc k); try (rewrite RG in R; auto; fail). rewrite RG in R. discriminate.
+Qed.
+
+Lemma cg_k g s : chans (close_gate g s) = chans s /\ thr (close_gate g s) = thr s /\
+  status (close_gate g s) = status s /\ reg (close_gate g s) = reg s /\ authed (close_gate g s) = authed s /\
+  next_int (close_gate g s) = next_int s.
+Proof. unfold close_gate. destruct (gclosed s g); cbn; auto 10. Qed.
+Lemma cgk1 g s : chans (close_gate g s) = chans s. Proof. apply cg_k. Qed.
+Lemma cgk2 g s : thr (close_gate g s) = thr s. Proof. apply cg_k. Qed.
+Lemma cgk3 g s : status (close_gate g s) = status s. Proof. apply cg_k. Qed.
+Lemma cgk4 g s : reg (close_gate g s) = reg s. Proof. apply cg_k. Qed.
+Lemma cgk5 g s : authed (close_gate g s) = authed s. Proof. apply cg_k. Qed.
+Lemma cgk6 g s : next_int (close_gate g s) = next_int s. Proof. apply cg_k. Qed.
+Lemma cck1 c s : chans (close_cap c s) = chans s. Proof. destruct c; cbn; auto. apply cgk1. Qed.
+Lemma cck2 c s : thr (close_cap c s) = thr s. Proof. destruct c; cbn; auto. apply cgk2. Qed.
+Lemma cck3 c s : status (close_cap c s) = status s. Proof. destruct c; cbn; auto. apply cgk3. Qed.
+Lemma cck4 c s : reg (close_cap c s) = reg s. Proof. destruct c; cbn; auto. apply cgk4. Qed.
+Lemma cck5 c s : authed (close_cap c s) = authed s. Proof. destruct c; cbn; auto. apply cgk5. Qed.
+Lemma cck6 c s : next_int (close_cap c s) = next_int s. Proof. destruct c; cbn; auto. apply cgk6. Qed.
+Lemma hrk c g s : chans (hubrem c g s) = chans s /\ thr (hubrem c g s) = thr s /\
+  status (hubrem c g s) = status s /\ reg (hubrem c g s) = reg s /\ authed (hubrem c g s) = authed s /\
+  next_int (hubrem c g s) = next_int s.
+Proof.
+  unfold hubrem. destruct (hub s c); [destruct (_ =? g); [destruct (others s c =? 0)|]|]; cbn; auto 10.
+Qed.
+Lemma hrk1 c g s : chans (hubrem c g s) = chans s. Proof. apply hrk. Qed.
+Lemma hrk2 c g s : thr (hubrem c g s) = thr s. Proof. apply hrk. Qed.
+Lemma hrk3 c g s : status (hubrem c g s) = status s. Proof. apply hrk. Qed.
+Lemma hrk4 c g s : reg (hubrem c g s) = reg s. Proof. apply hrk. Qed.
+Lemma hrk5 c g s : authed (hubrem c g s) = authed s. Proof. apply hrk. Qed.
+Lemma hrk6 c g s : next_int (hubrem c g s) = next_int s. Proof. apply hrk. Qed.
+
+Ltac krw := rewrite ?cgk1, ?cgk2, ?cgk3, ?cgk4, ?cgk5, ?cgk6, ?cck1, ?cck2, ?cck3, ?cck4, ?cck5, ?cck6,
+                    ?hrk1, ?hrk2, ?hrk3, ?hrk4, ?hrk5, ?hrk6.
+
+Ltac k_cm :=
+  let CL := fresh "CL" in
+  intros CL;
+  first [ apply cm_same; corek; krw; reflexivity
+        | eapply cm_remove; corek; krw; reflexivity
+        | eapply cm_insert_res; [corek; krw; reflexivity|reflexivity]
+        | exfalso; rewrite CL in *; discriminate ].
+
+(* thread t is not a winning close thread before or after the step *)
+Ltac kother KI ET FR s0 :=
+  eapply K_other with (nt := 2 * next_int s0 + 1) (x := new_close);
+  [ exact KI
+  | first [ left; corek; krw; reflexivity | right; split; [corek; krw; reflexivity | exact FR] ]
+  | let k0 := fresh in let X := fresh in intros k0 X; rewrite ET in X; first [discriminate X | inversion X; subst; first [assumption | match goal with E : k_pc _ = _ |- _ => rewrite E; reflexivity end]]
+  | let k0 := fresh in let X := fresh in intros k0 X; first [discriminate X | inversion X; subst; reflexivity]
+  | corek; krw; reflexivity
+  | k_cm
+  | intros _; corek; krw; reflexivity
+  | corek; krw; exact (k_auth _ KI) ].
+
+Lemma att_step_K s t a b s' :
+  KInv s -> InvBS s -> thr s t = Some (TAtt a) -> att_step s t a b = Some s' -> KInv s'.
+Proof.
+  intros KI I ET H. unfold att_step in H.
+  assert (FR : thr s (2 * next_int s + 1) = None) by (eapply fresh_int_b; eauto).
+  destruct (a_pc a) eqn:EPC;
+    repeat match type of H with
+    | (if ?c then _ else _) = _ => destruct c eqn:?
+    | match ?o with Some _ => _ | None => _ end = _ => destruct o eqn:?
+    | match ?k with Cli => _ | Srv => _ end = _ => destruct k eqn:?
+    end; try discriminate; inv H; cbv zeta;
+    repeat (match goal with |- context [if ?x then _ else _] => destruct x eqn:? end);
+    repeat (match goal with |- context [match hub ?s0 ?c with Some _ => _ | None => _ end] => destruct (hub s0 c) eqn:? end);
+    repeat (match goal with |- context [if ?x then _ else _] => destruct x eqn:? end).
+  all: kother KI ET FR s.
+Qed.
+
+(* unsubscribe run by an unsubscribe thread *)
+Lemma uns_step_K s t u b s1 ou :
+  KInv s -> thr s t = Some (TUns u) -> u_step s t u b = Some (s1, ou) ->
+  forall s', chans s' = chans s1 -> status s' = status s1 -> reg s' = reg s1 -> authed s' = authed s1 ->
+             thr s' = upd (thr s1) t (match ou with Some u' => Some (TUns u') | None => None end) ->
+             KInv s'.
+Proof.
+  intros KI ET H s' EC ES ER EA TH. unfold u_step in H.
+  destruct (u_pc u);
+    repeat match type of H with
+    | (if ?c then _ else _) = _ => destruct c eqn:?
+    | match ?o with Some _ => _ | None => _ end = _ => destruct o eqn:?
+    end; try discriminate; inv H;
+    repeat (match goal with H : context [if ?x then _ else _] |- _ => destruct x eqn:? end).
+  all: eapply K_other with (t := t) (nt := 0) (x := new_close);
+    [ exact KI
+    | left; rewrite TH; corek; krw; reflexivity
+    | intros k0 X; rewrite ET in X; discriminate X
+    | intros k0 X; discriminate X
+    | rewrite ES; corek; krw; reflexivity
+    | intros CL; first [ apply cm_same; rewrite EC; corek; krw; reflexivity
+                       | eapply cm_remove; rewrite EC; corek; krw; reflexivity ]
+    | intros _; rewrite ER; corek; krw; reflexivity
+    | rewrite ER, EA; corek; krw; exact (k_auth _ KI) ].
+Qed.
+
+(* unsubscribe run inline by the winning close thread *)
+Lemma cls_u_step_K s t k u b s1 ou :
+  KInv s -> thr s t = Some (TCls k) -> k_pc k = CLoop -> k_cur k = Some u ->
+  u_step s t u b = Some (s1, ou) ->
+  KInv (thr_set t (TCls (mkC CLoop (k_prev k) (k_rest k) ou)) s1).
+Proof.
+  intros KI ET EPC EC H. unfold u_step in H.
+  assert (W : won (k_pc k) = true) by (rewrite EPC; reflexivity).
+  destruct (u_pc u) eqn:EU;
+    repeat match type of H with
+    | (if ?c then _ else _) = _ => destruct c eqn:?
+    | match ?o with Some _ => _ | None => _ end = _ => destruct o eqn:?
+    end; try discriminate; inv H;
+    repeat (match goal with |- context [if ?x then _ else _] => destruct x eqn:? end).
+  all: eapply K_winner with (t := t) (k := k);
+    [ exact KI | exact ET | exact W
+    | corek; krw; reflexivity | corek; krw; reflexivity | corek; krw; reflexivity
+    | first [ apply cm_same; corek; krw; reflexivity | eapply cm_remove; corek; krw; reflexivity ]
+    | idtac
+    | rewrite EPC; corek; krw; reflexivity ].
+  all: intros c0 g0 G [_ [IN|(_ & u0 & E0 & CH & X)]];
+    [ eexists; split; [reflexivity|]; split; [reflexivity|left; exact IN]
+    | rewrite EC in E0; inv E0; rewrite EU in X ].
+  all: try (destruct X; fail).
+  all: try (exfalso; destruct G as (x0 & L0 & _); corek; krw;
+            first [ congruence
+                  | rewrite lookup_remove, N.eqb_refl in L0; discriminate L0 ]; fail).
+  (* USnap with a context present: the target generation is fixed now *)
+  all: try (eexists; split; [reflexivity|]; split; [reflexivity|right; split; [reflexivity|]];
+            eexists; split; [reflexivity|]; split; [reflexivity|]; cbn;
+            first [ intros g1 (x1 & L1 & _ & G1); corek; congruence
+                  | exact X ]; fail).
+  (* UDelete with a different generation: by the target clause nothing committed is left *)
+  all: try (exfalso; destruct G as (x0 & L0 & S0 & G0); corek;
+            assert (g0 = u_tgt u0) by (apply X; exists x0; auto);
+            repeat match goal with H : (_ =? _) = false |- _ => apply N.eqb_neq in H end; congruence).
+Qed.
+
+Ltac kother_x KI ET FR s0 x0 :=
+  eapply K_other with (nt := 2 * next_int s0 + 1) (x := x0);
+  [ exact KI
+  | first [ left; corek; krw; reflexivity | right; split; [corek; krw; reflexivity | exact FR] ]
+  | let k0 := fresh in let X := fresh in intros k0 X; rewrite ET in X; first [discriminate X | inversion X; subst; first [assumption | match goal with E : k_pc _ = _ |- _ => rewrite E; reflexivity end]]
+  | let k0 := fresh in let X := fresh in intros k0 X; first [discriminate X | inversion X; subst; reflexivity]
+  | corek; krw; reflexivity
+  | k_cm
+  | intros _; corek; krw; reflexivity
+  | corek; krw; exact (k_auth _ KI) ].
+
+Lemma in_keys {V} c (m : amap V) x : lookup c m = Some x -> In c (keys m).
+Proof. intros E. apply in_keys_lookup. congruence. Qed.
+
+Lemma step_thread_K s t b s' : KInv s -> InvBS s -> LInv s -> step_thread s t b = Some s' -> KInv s'.
+Proof.
+  intros KI I LI H. unfold step_thread in H.
+  destruct (thr s t) as [[a|u|k|k|pc|c]|] eqn:ET; try discriminate.
+  all: assert (FR : thr s (2 * next_int s + 1) = None) by (eapply fresh_int_b; eauto).
+  - eapply att_step_K; eauto.
+  - destruct (u_step s t u b) as [[s1 ou]|] eqn:EU; [|discriminate].
+    eapply (uns_step_K s t u b s1 ou KI ET EU); destruct ou; inv H; corek; reflexivity.
+  - (* close *)
+    unfold cls_step in H. destruct (k_pc k) eqn:EPC.
+    + inv H. kother KI ET FR s.
+    + destruct (cmu s); inv H. kother KI ET FR s.
+    + (* CFlip *)
+      destruct (is_closed (status s)) eqn:CL; inv H; [kother KI ET FR s|].
+      destruct KI as [K1 K2 K3]. constructor; corek.
+      * intros _ c g (x & L & _). exists t. eexists. rewrite upd_same. split; [reflexivity|].
+        split; [reflexivity|left; cbn; eapply in_keys; eauto].
+      * intros _ R. exists t. eexists. rewrite upd_same. split; reflexivity.
+      * exact K3.
+    + (* CRemove *)
+      assert (RA : reg s = true -> authed s = true) by apply (k_auth _ KI).
+      destruct (authed s) eqn:EA; [destruct (reg s) eqn:ER|]; inv H;
+        (eapply K_winner with (t := t) (k := k); [exact KI|exact ET|rewrite EPC; reflexivity
+          |corek; reflexivity|corek; rewrite ?EA; reflexivity|corek; reflexivity|apply cm_same; corek; reflexivity
+          | intros c0 g0 G [W CV]; eexists; split; [reflexivity|]; split; [reflexivity|];
+            destruct CV as [IN|(P & _)]; [left; exact IN|rewrite EPC in P; discriminate]
+          | rewrite EPC; corek; try reflexivity ]).
+      destruct (reg s); auto. specialize (RA eq_refl). discriminate.
+    + inv H. eapply K_winner with (t := t) (k := k); [exact KI|exact ET|rewrite EPC; reflexivity
+        |corek; reflexivity|corek; reflexivity|corek; reflexivity|apply cm_same; corek; reflexivity
+        | intros c0 g0 G [W CV]; eexists; split; [reflexivity|]; split; [reflexivity|];
+          destruct CV as [IN|(P & _)]; [left; exact IN|rewrite EPC in P; discriminate]
+        | rewrite EPC; corek; reflexivity ].
+    + inv H. eapply K_winner with (t := t) (k := k); [exact KI|exact ET|rewrite EPC; reflexivity
+        |corek; reflexivity|corek; reflexivity|corek; reflexivity|apply cm_same; corek; reflexivity
+        | intros c0 g0 G [W CV]; eexists; split; [reflexivity|]; split; [reflexivity|];
+          destruct CV as [IN|(P & _)]; [left; exact IN|rewrite EPC in P; discriminate]
+        | rewrite EPC; corek; reflexivity ].
+    + destruct (pmu s); inv H. eapply K_winner with (t := t) (k := k); [exact KI|exact ET|rewrite EPC; reflexivity
+        |corek; reflexivity|corek; reflexivity|corek; reflexivity|apply cm_same; corek; reflexivity
+        | intros c0 g0 G [W CV]; eexists; split; [reflexivity|]; split; [reflexivity|];
+          destruct CV as [IN|(P & _)]; [left; exact IN|rewrite EPC in P; discriminate]
+        | rewrite EPC; corek; reflexivity ].
+    + (* CLoop *)
+      destruct (k_cur k) as [u|] eqn:EC.
+      * destruct (u_step s t u b) as [[s1 ou]|] eqn:EU; [|discriminate]. inv H.
+        eapply cls_u_step_K; eauto.
+      * destruct (k_rest k) as [|c0 r] eqn:ER; [|destruct b]; inv H;
+          (eapply K_winner with (t := t) (k := k); [exact KI|exact ET|rewrite EPC; reflexivity
+            |corek; reflexivity|corek; reflexivity|corek; reflexivity|apply cm_same; corek; reflexivity
+            | | rewrite EPC; corek; reflexivity ]);
+          intros c1 g1 G [W [IN|(_ & u0 & E0 & _)]]; try (rewrite EC in E0; discriminate E0);
+          rewrite ER in IN.
+        -- destruct IN.
+        -- eexists; split; [reflexivity|]; split; [reflexivity|]. destruct IN as [<-|IN]; [right|left; exact IN].
+           split; [reflexivity|]. eexists. split; [reflexivity|]. split; reflexivity.
+        -- eexists; split; [reflexivity|]; split; [reflexivity|left]. cbn.
+           apply in_or_app. destruct IN as [<-|IN]; [right; left; auto|left; auto].
+    + inv H. destruct (is_connected (k_prev k)); kother KI ET FR s.
+    + inv H. kother KI ET FR s.
+  - (* tick *)
+    unfold tck_step in H. destruct b.
+    all: destruct (t_pc k);
+      repeat match type of H with
+      | (if ?c then _ else _) = _ => destruct c eqn:?
+      | match ?l with [] => _ | _ :: _ => _ end = _ => destruct l
+      | match ?o with Some _ => _ | None => _ end = _ => destruct o
+      end; try discriminate; inv H;
+      repeat (match goal with |- context [if ?x then _ else _] => destruct x eqn:? end);
+      kother KI ET FR s.
+  - (* connect *)
+    unfold con_step in H. destruct pc;
+      repeat match type of H with (if ?c then _ else _) = _ => destruct c eqn:? end;
+      try discriminate; inv H;
+      repeat (match goal with |- context [if ?x then _ else _] => destruct x eqn:? end).
+    all: try (kother KI ET FR s; fail).
+    (* KSet: the handler section runs with status = Connecting *)
+    all: try (assert (SC : status s = Connecting) by (eapply (l_conn _ LI); rewrite ET; reflexivity);
+              destruct KI as [K1 K2 K3]; constructor; corek; try discriminate; auto; fail).
+    (* KAuth: registration while not closed *)
+    all: eapply K_other with (nt := 0) (x := new_close);
+      [ exact KI | left; corek; reflexivity
+      | intros k0 X; rewrite ET in X; discriminate X | intros k0 X; discriminate X
+      | corek; reflexivity
+      | intros CL; exfalso; rewrite CL in *; discriminate
+      | intros CL; exfalso; rewrite CL in *; discriminate
+      | corek; reflexivity ].
+  - unfold job_step in H. destruct b; inv H; kother KI ET FR s.
+Qed.
+
+Lemma K_spawn s s' tn x :
+  KInv s -> thr s tn = None -> thr s' = upd (thr s) tn (Some x) ->
+  chans s' = chans s -> status s' = status s -> reg s' = reg s -> authed s' = authed s ->
+  KInv s'.
+Proof.
+  intros [K1 K2 K3] FR TH EC ES ER EA.
+  assert (KEEP : forall t0 th, thr s t0 = Some th -> thr s' t0 = Some th).
+  { intros t0 th E. rewrite TH, upd_other; auto. intros ->. congruence. }
+  constructor.
+  - rewrite ES. intros CL c g G. destruct (K1 CL c g (cm_same _ _ EC _ _ G)) as (t0 & k & E & CV).
+    exists t0, k. split; auto. eapply covers_mono; [apply cm_same; exact EC|exact CV].
+  - rewrite ES, ER. intros CL R. destruct (K2 CL R) as (t0 & k & E & P). exists t0, k. auto.
+  - rewrite ER, EA. exact K3.
+Qed.
+
+Lemma astep_K s l s' : KInv s -> InvBS s -> LInv s -> is_timeout l = false -> astep s l = Some s' -> KInv s'.
+Proof.
+  intros KI I LI NT H. destruct l; cbn in H; try discriminate.
+  - unfold spawn in H.
+    assert (FRE : thr s (2 * next_ext s) = None) by (eapply fresh_ext_b; eauto).
+    assert (FR : thr s (2 * next_int s + 1) = None) by (eapply fresh_int_b; eauto).
+    destruct o;
+      repeat match type of H with (if ?c then _ else _) = _ => destruct c eqn:? end;
+      try discriminate; inv H;
+      try (eapply K_spawn with (tn := 2 * next_ext s); [exact KI|exact FRE|corek; reflexivity|corek; reflexivity
+             |corek; reflexivity|corek; reflexivity|corek; reflexivity]; fail).
+    destruct (reg s) eqn:ER.
+    + eapply K_spawn with (tn := 2 * next_int s + 1); [exact KI|exact FR|corek; reflexivity|corek; reflexivity
+             |corek; reflexivity|corek; reflexivity|corek; reflexivity].
+    + destruct KI as [K1 K2 K3]. constructor; corek; auto.
+  - eapply step_thread_K; eauto.
+  - unfold job_start in H. destruct (mem c (jobs s) && negb (slock s c)); [|discriminate].
+    assert (FR : thr s (2 * next_int s + 1) = None) by (eapply fresh_int_b; eauto).
+    destruct (subscribers s c); inv H.
+    + destruct KI as [K1 K2 K3]. constructor; corek; auto.
+    + eapply K_spawn with (tn := 2 * next_int s + 1); [exact KI|exact FR|corek; reflexivity|corek; reflexivity
+             |corek; reflexivity|corek; reflexivity|corek; reflexivity].
+  - unfold other_add in H. destruct (slock s c); [discriminate|]. destruct KI as [K1 K2 K3].
+    destruct (subscribers s c); [|destruct b]; inv H; constructor; corek; auto.
+  - unfold other_rem in H. destruct (slock s c || (others s c =? 0)); [discriminate|]. destruct KI as [K1 K2 K3].
+    destruct ((others s c =? 1) && match hub s c with None => true | Some _ => false end); inv H;
+      constructor; corek; auto.
+Qed.
+
+Theorem exec_K l : forall s s', KInv s -> InvBS s -> LInv s -> no_timeout l = true -> exec l s = Some s' -> KInv s'.
+Proof.
+  induction l as [|x l IH]; cbn; intros s s' KI I LI NT H.
+  - inv H. auto.
+  - apply andb_true_iff in NT. destruct NT as [N1 N2].
+    destruct (astep s x) as [s1|] eqn:E; [|discriminate].
+    apply (IH s1 s'); auto; [eapply astep_K; eauto; destruct (is_timeout x); auto; discriminate
+                            |eapply astep_B; eauto|eapply astep_L; eauto].
+Qed.
+
+(* ---- C05 consequences ---- *)
+Theorem closed_settled_nothing_committed sched s :
+  no_timeout sched = true -> exec sched init = Some s -> settled s -> status s = Closed ->
+  (forall c g, ~ committed s c g) /\ reg s = false.
+Proof.
+  intros NT E ST CL.
+  assert (KI : KInv s) by (eapply exec_K; eauto; [apply KInv_init|apply InvBS_init|apply LInv_init]).
+  split.
+  - intros c g G. destruct (k_cov _ KI CL c g G) as (t & k & ET & _). rewrite (ST t) in ET. discriminate.
+  - destruct (reg s) eqn:R; auto. destruct (k_reg _ KI CL R) as (t & k & ET & _). rewrite (ST t) in ET. discriminate.
 Qed.
